@@ -2,5 +2,6 @@ SPECIFICATION Spec
 CONSTANT Dev = "lpnorm_ignores_layout"
 INVARIANT FusionSound
 INVARIANT LpNormSound
+INVARIANT MeanSound
 INVARIANT DigitizeLaws
 CHECK_DEADLOCK FALSE
